@@ -219,7 +219,7 @@ tys!(
     U8, U16, U32, U64, I8, I16, I32, I64, Usize, Isize, Bool, Char, F32, F64, Unit, Str, String, Bytes, ByteSliceRef,
     ByteArr8, OptU32, OptStr, ResOk, ResErr, Tuple1, Tuple2, Tuple3, Tuple8, ArrU16x3, ArrStrx2, VecU32, VecString,
     VecVecU8, BTreeMapU32Str, Duration, IpAddr, SocketAddr, IntTy, TaggedU32, Tokens, Point, MapRec, Gappy, Color,
-    Shape, Wrapper, Borrowed, Tree, TaggedRec, EncOps, BoxStr, CowStr, RangeU32, BoundI16, Wrapping, CString, Path,
+    Shape, Wrapper, Borrowed, Tree, TaggedRec, EncOps, BoxStr, CowStr, RangeU32, BoundI16, Wrapping, CString, Path, Empty,
 );
 
 #[derive(Clone, Debug, PartialEq, Eq)]
@@ -260,7 +260,13 @@ impl ValSpec {
 pub fn gen_size(r: &mut Rng, big: bool) -> u32 {
     if r.chance(1, 24) {
         // around allocator / chunking boundaries
-        return *r.pick(&[4090u32, 4095, 4096, 4097, 4100, 5000, 8191, 8192, 8193, 12_000, 16_383, 16_384, 16_385, 20_000]);
+        return match r.below(5) {
+            0 => r.range(4085, 4100) as u32,
+            1 => r.range(8180, 8196) as u32,
+            2 => r.range(16_375, 16_390) as u32,
+            3 => r.range(4101, 9000) as u32,
+            _ => r.range(9001, 20_000) as u32,
+        };
     }
     match r.below(if big { 12 } else { 10 }) {
         0 => 0,
@@ -583,6 +589,8 @@ pub fn with_value<V: EncVisitor>(spec: &ValSpec, vis: V) -> V::Out {
             vis.visit(&std::ffi::CString::new(s).unwrap_or_default())
         }
         Ty::Path => vis.visit(&std::path::PathBuf::from(gen_string(r, n))),
+        // a value whose Encode impl writes nothing at all (zero-length encoding)
+        Ty::Empty => vis.visit(&EncOps(Vec::new())),
     }
 }
 
